@@ -432,6 +432,12 @@ class InverseOperator(AbstractLazyInverseOperator):
         jax.debug.callback(self.config.solver_callback, solution)
         return solution.value
 
+    def transpose(self) -> AbstractLinearOperator:
+        # (A^-1)^T = (A^T)^-1, solved with the configuration captured by this inverse
+        transposed = InverseOperator(self.operator.T)
+        object.__setattr__(transposed, 'config', self.config)
+        return transposed
+
 
 @orthogonal
 class AbstractLazyInverseOrthogonalOperator(TransposeOperator, AbstractLazyInverseOperator):
